@@ -15,7 +15,7 @@ from props import isa_common
 
 FAMILY = ['mov/Imm16,SttMod', 'mov/Imm16,ArArp', 'mov/Abl,SttMod', 'mov/Abl,ArArp', 'mov/SttMod,Abl', 'mov/ArArp,Abl',
           'push/ArArpSttMod', 'pop/ArArpSttMod', 'mov/ArArpSttMod,MemR7Imm16', 'mov/MemR7Imm16,ArArpSttMod',
-          'mov/SttMod,ArRn1,ArStep1', 'mov/ArRn1,ArStep1,SttMod', 'alb/Alb,Imm16,SttMod', 'tstb/SttMod,Imm16',
+          'mov/SttMod,ArRn1,ArStep1', 'mov/ArRn1,ArStep1,SttMod', 'mov/ArArp,ArRn1,ArStep1', 'mov/ArRn1,ArStep1,ArArp', 'alb/Alb,Imm16,SttMod', 'tstb/SttMod,Imm16',
           'mov_icr', 'mov_icr_to', 'push/Register', 'pop/Register', 'mov/Imm16,Register', 'mov/Register,Register',
           'load_ps', 'load_ps01', 'load_page', 'load_movpd', 'load_modi', 'load_stepi', 'dint', 'eint', 'cntx_s', 'cntx_r']
 FINISH = dict(rule='19 words x written values x 3 base states (TLC); random register states x random word/value through the '
@@ -35,7 +35,7 @@ def run(ck):
                  for i, f in enumerate(files)])
     ck.validate_traces('RegsTrace', 'Trace_Regs.cfg', files, timeout=1800)
     ck.sample_lines(files[0], 1, skip=2)
-    isa_common.family_check(ck, FAMILY, ck.pick(1, 3), 'c20', parts=8, rounds=1)
+    isa_common.family_check(ck, FAMILY, ck.pick(4, 12), 'c20', parts=8, rounds=1)
     ck.assumptions += isa_common.ISA_ASSUMPTIONS + [
         'the slot tables of TeakRegs.tla are a hand transcription of register.h, frozen in /verif']
 
